@@ -173,6 +173,16 @@ func runPollCase(c Case) pollResult {
 		}
 		return rets
 	}
+	// the payload of every write quotes the earlier versions of its key and the version nobody ever wrote (a record
+	// that keeps "prev=<version>" in its value): a version string inside the payload is not the record's version
+	val := func(k int, tag string) []byte {
+		h := hist[k]
+		q := tag + " unk=" + unkVersion
+		for i := len(h) - 1; i >= 0 && i >= len(h)-2; i-- {
+			q += " prev=" + h[i]
+		}
+		return []byte(q)
+	}
 	wrote := func(k int, v string) string {
 		hist[k] = append(hist[k], v)
 		return fmt.Sprintf("QWrite %s %s", hx.Nat(k), hx.N(vtag(v)))
@@ -211,7 +221,7 @@ func runPollCase(c Case) pollResult {
 			if o.K >= nk {
 				continue
 			}
-			r, err := st.Put(bg, kvs.Record{Key: keyName(o.K), Value: []byte("v")})
+			r, err := st.Put(bg, kvs.Record{Key: keyName(o.K), Value: val(o.K, "v")})
 			if err != nil {
 				res.Other = append(res.Other, "Put: "+err.Error())
 				continue
@@ -221,7 +231,7 @@ func runPollCase(c Case) pollResult {
 			if o.K >= nk {
 				continue
 			}
-			v, err := st.Create(bg, kvs.Record{Key: keyName(o.K), Value: []byte("c")})
+			v, err := st.Create(bg, kvs.Record{Key: keyName(o.K), Value: val(o.K, "c")})
 			if errors.Is(err, gerrors.ErrExist) {
 				continue // no change of the server state
 			}
@@ -234,7 +244,7 @@ func runPollCase(c Case) pollResult {
 			if o.K >= nk {
 				continue
 			}
-			r, err := st.CasByVersion(bg, kvs.Record{Key: keyName(o.K), Value: []byte("s"), Version: version(o.K, o.V)})
+			r, err := st.CasByVersion(bg, kvs.Record{Key: keyName(o.K), Value: val(o.K, "s"), Version: version(o.K, o.V)})
 			if errors.Is(err, gerrors.ErrConflict) || errors.Is(err, gerrors.ErrNotExist) {
 				continue
 			}
